@@ -263,3 +263,46 @@ def c11_case(case, seed, pre, layout):
         if d:
             return f"compute()/reset() modified arguments passed to an earlier update(): {d}"
     return None
+
+
+# ---- C14 (class-generic part) -----------------------------------------------------------------
+def widen(args):
+    """Change the trailing extent of every >=2-D tensor argument consistently (+1 column): the call is
+    well-formed on its own but may be inconsistent with what the metric has already accumulated."""
+    a, k = args
+
+    def w(x):
+        if isinstance(x, torch.Tensor) and x.ndim >= 2 and x.shape[-1] >= 1:
+            return torch.cat([x, x[..., :1]], dim=-1)
+        return x
+    return tuple(w(x) for x in a), {n: w(x) for n, x in k.items()}
+
+
+def c14_case(case, seed, pre):
+    """After a valid history, an update that is valid in isolation but has another trailing width:
+    it must either be accepted or raise leaving state and results exactly as they were."""
+    label, name, kw, call, cls = case
+    rng = random.Random(seed)
+    m = build(case, rng, pre)
+    u = call(rng, rng.choice([2, 3]))
+    bad = widen(u)
+    if all(x is y for x, y in zip(bad[0], u[0])) and all(bad[1][n] is u[1][n] for n in u[1]):
+        return None      # nothing to widen for this class
+    # the widened call must be acceptable to a FRESH instance, otherwise it is an ordinary malformed call
+    f = basecalls.make(name, kw, cls)
+    try:
+        do_update(f, bad)
+    except Exception:
+        return None
+    before = (full_state(m), compute_val(m))
+    try:
+        do_update(m, bad)
+    except Exception as ex:
+        d = same(before[0], full_state(m)) or same(before[1], compute_val(m))
+        if d:
+            return f"update() raised {type(ex).__name__} after a valid history but left the metric changed: {d}"
+        try:
+            do_update(m, u)
+        except Exception as ex2:
+            return f"metric unusable after a failed update(): {type(ex2).__name__}: {ex2}"
+    return None
